@@ -481,13 +481,18 @@ func (s *Service) createGateway(
 		return err
 	}
 	storageChannels := toStorage(toCreate)
+	// The engine creates the channels one by one and keeps the ones it created before a
+	// failure, and it knows nothing about the metadata transaction. If the batch does not
+	// make it into the metadata, the engine must not keep any of its channels: their keys
+	// are fresh, so removing them cannot touch a channel that existed before.
+	createdKeys := KeysFromChannels(toCreate).Storage()
 	if err = s.cfg.TSChannel.CreateChannel(ctx, storageChannels...); err != nil {
-		return err
+		return errors.Combine(err, s.cfg.TSChannel.DeleteChannels(createdKeys))
 	}
 	if err = s.table.NewCreate().
 		Entries(&toCreate).
 		Exec(ctx, tx); err != nil {
-		return err
+		return errors.Combine(err, s.cfg.TSChannel.DeleteChannels(createdKeys))
 	}
 	s.mu.externalNonVirtualSet.Insert(externalCreatedKeys...)
 	return nil
